@@ -162,7 +162,7 @@ def sim_collect(rep, prop, tier, rng, seed, gen_kwargs_list, n_quick, n_thorough
             settle_from = len(lines)
             lines = lines + gen_scripts.settle_lines(meta)
         batch.append(lines)
-        metas.append(dict(settle_from=settle_from, corpus=None, meta=meta))
+        metas.append(dict(settle_from=settle_from, corpus=None, meta=meta, props=meta.get("props")))
         names.append("gen-%d-%d" % (seed, i))
     results = run_batch(batch)
     diverged, oracle_fail = [], []
@@ -172,7 +172,7 @@ def sim_collect(rep, prop, tier, rng, seed, gen_kwargs_list, n_quick, n_thorough
         steps, impl, model = res
         d = simlib.first_divergence(steps, impl, model)
         tr = simoracle.Trace(steps, res.raw)
-        problems = [p for p in tr.run(settle_from=meta["settle_from"]) if p["prop"] in (meta.get("props") or oracle_props)]
+        problems = [p for p in tr.run(settle_from=meta["settle_from"]) if p["prop"] in (oracle_props if meta.get("props") is None else meta["props"])]
         for k, v in getattr(tr, "stats", {}).items():
             stats_total[k] = stats_total.get(k, 0) + v
         if getattr(tr, "stats", {}).get("mut", 0) >= 2 and getattr(tr, "stats", {}).get("upd", 0) >= 2:
@@ -221,7 +221,11 @@ def sim_collect(rep, prop, tier, rng, seed, gen_kwargs_list, n_quick, n_thorough
         pr = [p for p in tr.run(settle_from=None) if p["prop"] in oracle_props]
         if pr and not oracle_fail:
             oracle_fail.append(dict(script_name=f["script_name"] + "-shrunk", problem=pr[0], script=f["shrunk"]))
-        if not oracle_fail and not pr:
+        props_of_script = None
+        for name_, meta_0 in zip(names, metas):
+            if name_ == f["script_name"]:
+                props_of_script = meta_0.get("props")
+        if not oracle_fail and not pr and props_of_script is None:
             # amplify: a divergence is often latent state (bookkeeping) that only shows when nothing changes any more.
             # Continue the diverging prefix (original and shrunk) quietly - everything still in flight lost or delivered -
             # and let the oracles judge the settled state.
